@@ -119,14 +119,14 @@ Eval vm_compute in map (fun n => tree_all_reduce (@app Z) (fun r => [r]) n) [%s]
         flat = ' '.join(out.split()).replace('%Z', '')
         m = re.search(r'= \[(.*)\] : list', flat)
         if rc != 0 or not m:
-            fails.append({'what': 'Tree.tree_all_reduce could not be evaluated: ' + out[-400:]})
+            fails.append({'what': 'Tree.tree_all_reduce could not be evaluated: ' + out[-400:], 'level': 'model'})
         else:
             lists = re.findall(r'\[([^\[\]]*)\]', m.group(1))
             for n, l in zip(ns, lists):
                 want = ''.join(x.strip() + ',' for x in l.split(';') if x.strip())
                 n_eval += 1
                 if orders[n] != {want}:
-                    fails.append({'what': 'all_reduce with a non-commutative merge (concatenation) on %d ranks returned %s; Tree.tree_all_reduce (the model the fold theorem is about) gives %s' % (n, sorted(map(str, orders[n])), want), 'size': n})
+                    fails.append({'what': 'all_reduce with a non-commutative merge (concatenation) on %d ranks returned %s; Tree.tree_all_reduce (the model the fold theorem is about) gives %s' % (n, sorted(map(str, orders[n])), want), 'size': n, 'level': 'model'})
     return n_eval, len(sizes), fails, samples
 
 def run(tier, seed, replay=None):
